@@ -75,6 +75,170 @@ def validator_reads(cls, vname):
                      and n.attr in cls.model_fields)
 
 
+# ------------------------------------------------------------------ validator bodies -> programs of Model/SettingsProg.v
+PROG_VIDS = ["VDevMode", "VAlphaFinal", "VFinalBounds", "VInitStep", "VReduceStd"]
+
+
+class _Compiler:
+    """python `ast` of one model validator -> Coq text of a `list vstmt` (fail-closed: any construct outside the small
+    language of Model/SettingsProg.v raises TranslateError)"""
+
+    def __init__(self, cls, vname):
+        import ast
+        import inspect
+        import textwrap
+        self.ast = ast
+        self.cls = cls
+        self.where = "%s.%s" % (cls.__name__, vname)
+        fn = getattr(cls, vname)
+        fn = getattr(fn, "__func__", fn)
+        self.globals = fn.__globals__
+        tree = ast.parse(textwrap.dedent(inspect.getsource(fn)))
+        self.fn = next(n for n in ast.walk(tree) if isinstance(n, ast.FunctionDef))
+        _need(len(self.fn.args.args) == 1, "%s: unexpected signature" % self.where)
+        self.me = self.fn.args.args[0].arg
+
+    def fail(self, node, what):
+        raise TranslateError("%s line %s: %s (%s)" % (self.where, getattr(node, "lineno", "?"), what, self.ast.dump(node)[:120]))
+
+    def program(self):
+        return self.block(self.fn.body)
+
+    def block(self, stmts):
+        out = []
+        for st in stmts:
+            r = self.stmt(st)
+            if r is not None:
+                out.append(r)
+        return "[" + "; ".join(out) + "]"
+
+    def stmt(self, st):
+        ast = self.ast
+        if isinstance(st, ast.Return):
+            if not (isinstance(st.value, ast.Name) and st.value.id == self.me):
+                self.fail(st, "return of something else than self")
+            return "SReturn"
+        if isinstance(st, ast.Raise):
+            e = st.exc
+            if not (isinstance(e, ast.Call) and isinstance(e.func, ast.Name) and e.func.id == "ValueError" and st.cause is None):
+                self.fail(st, "raise of something else than ValueError(...)")
+            return "SRaise"
+        if isinstance(st, ast.If):
+            return "SIf %s %s %s" % (self.cond(st.test), self.block(st.body), self.block(st.orelse))
+        if isinstance(st, ast.Expr):
+            v = st.value
+            if isinstance(v, ast.Constant) and isinstance(v.value, str):
+                return None                                              # docstring
+            if isinstance(v, ast.Call) and isinstance(v.func, ast.Name) and not v.keywords:
+                if v.func.id == "print" and all(isinstance(a, (ast.Constant, ast.JoinedStr)) for a in v.args):
+                    return None                                          # the warning text: no effect on the outcome
+                if v.func.id == "_check_developer_mode" and len(v.args) == 1 and isinstance(v.args[0], ast.Name) \
+                        and v.args[0].id == self.me:
+                    target = self.globals.get("_check_developer_mode")
+                    _need(callable(target) and getattr(target, "__module__", "").endswith("daily.utilities.settings"),
+                          "%s: _check_developer_mode does not resolve to the module-level walk" % self.where)
+                    return "SLock"
+            self.fail(st, "expression statement outside the language")
+        self.fail(st, "statement outside the language")
+
+    def term(self, e):
+        ast = self.ast
+        if isinstance(e, ast.Attribute) and isinstance(e.value, ast.Name) and e.value.id == self.me:
+            if e.attr not in self.cls.model_fields:
+                self.fail(e, "self.%s is not a settings field" % e.attr)
+            return "(TField %s)" % coq_str(e.attr)
+        if isinstance(e, ast.Constant):
+            if e.value is None:
+                return "TNone"
+            if isinstance(e.value, bool):
+                self.fail(e, "boolean literal")
+            if isinstance(e.value, (int, float)):
+                return "(TNum %s)" % vlib.qlit(Fraction(e.value))
+            if isinstance(e.value, str):
+                return "(TStr %s)" % coq_str(e.value)
+        if isinstance(e, ast.UnaryOp) and isinstance(e.op, ast.USub) and isinstance(e.operand, ast.Constant) \
+                and isinstance(e.operand.value, (int, float)) and not isinstance(e.operand.value, bool):
+            return "(TNum %s)" % vlib.qlit(-Fraction(e.operand.value))
+        if isinstance(e, ast.Subscript):
+            sl = e.slice
+            if isinstance(sl, ast.Constant) and isinstance(sl.value, int) and not isinstance(sl.value, bool) and sl.value >= 0:
+                return "(TIndex %s %d)" % (self.term(e.value), sl.value)
+            if isinstance(sl, ast.Slice) and sl.lower is None and sl.step is None and isinstance(sl.upper, ast.Constant) \
+                    and isinstance(sl.upper.value, int) and sl.upper.value >= 0:
+                return "(TPrefix %s %d)" % (self.term(e.value), sl.upper.value)
+        self.fail(e, "term outside the language")
+
+    def cond(self, e):
+        ast = self.ast
+        if isinstance(e, ast.BoolOp):
+            parts = [self.cond(v) for v in e.values]
+            ctor = "COr" if isinstance(e.op, ast.Or) else "CAnd"
+            acc = parts[-1]
+            for p_ in reversed(parts[:-1]):
+                acc = "(%s %s %s)" % (ctor, p_, acc)
+            return acc
+        if isinstance(e, ast.UnaryOp) and isinstance(e.op, ast.Not):
+            return "(CNot %s)" % self.cond(e.operand)
+        if isinstance(e, ast.Call) and isinstance(e.func, ast.Name) and e.func.id == "isinstance" and len(e.args) == 2 \
+                and isinstance(e.args[1], ast.Name) and e.args[1].id in ("float", "str") and not e.keywords:
+            return "(%s %s)" % ("CIsFloat" if e.args[1].id == "float" else "CIsStr", self.term(e.args[0]))
+        if isinstance(e, ast.Compare) and len(e.ops) == 1:
+            op, a, b = e.ops[0], e.left, e.comparators[0]
+            none_b = isinstance(b, ast.Constant) and b.value is None
+            if isinstance(op, (ast.Is, ast.IsNot)):
+                if not none_b:
+                    self.fail(e, "`is` with something else than None")
+                c = "(CIsNone %s)" % self.term(a)
+                return c if isinstance(op, ast.Is) else "(CNot %s)" % c
+            if isinstance(a, ast.Call) and isinstance(a.func, ast.Name) and a.func.id == "len" and len(a.args) == 1 \
+                    and isinstance(b, ast.Constant) and isinstance(b.value, int) and isinstance(op, (ast.Eq, ast.NotEq)):
+                c = "(CLenEq %s %d)" % (self.term(a.args[0]), b.value)
+                return c if isinstance(op, ast.Eq) else "(CNot %s)" % c
+            if isinstance(op, (ast.In, ast.NotIn)):
+                if not (isinstance(b, (ast.List, ast.Tuple)) and all(isinstance(x, ast.Constant) and isinstance(x.value, str) for x in b.elts)):
+                    self.fail(e, "`in` with something else than a literal list of strings")
+                c = "(CInStrs %s [%s])" % (self.term(a), "; ".join(coq_str(x.value) for x in b.elts))
+                return c if isinstance(op, ast.In) else "(CNot %s)" % c
+            if isinstance(op, (ast.Eq, ast.NotEq)):
+                c = "(CEq %s %s)" % (self.term(a), self.term(b))
+                return c if isinstance(op, ast.Eq) else "(CNot %s)" % c
+            if isinstance(op, ast.LtE):
+                return "(CLe %s %s)" % (self.term(a), self.term(b))
+            if isinstance(op, ast.Lt):
+                return "(CLt %s %s)" % (self.term(a), self.term(b))
+            if isinstance(op, ast.GtE):
+                return "(CLe %s %s)" % (self.term(b), self.term(a))
+            if isinstance(op, ast.Gt):
+                return "(CLt %s %s)" % (self.term(b), self.term(a))
+            self.fail(e, "comparison outside the language")
+        if isinstance(e, ast.Attribute):
+            return "(CTruthy %s)" % self.term(e)
+        self.fail(e, "condition outside the language")
+
+
+def compile_programs(classes, seen):
+    """vid -> Coq text of the validator's program; every class that runs the validator must compile to the same text"""
+    progs = {}
+    for cname, info in seen.items():
+        cls = None
+        for c in classes.values():
+            for k in c.__mro__:
+                if k.__name__ == cname:
+                    cls = k
+        if cls is None:      # nested classes: find through annotations
+            cls = _NESTED.get(cname)
+        _need(cls is not None, "class object of %s not found" % cname)
+        for v in info["validators"]:
+            if v["vid"] in PROG_VIDS:
+                text = _Compiler(cls, v["py"]).program()
+                _need(progs.setdefault(v["vid"], text) == text, "%s compiles differently in %s" % (v["vid"], cname))
+    _need(sorted(progs) == sorted(PROG_VIDS), "validators compiled: %r" % sorted(progs))
+    return progs
+
+
+_NESTED = {}
+
+
 EXPECTED_CONFIG = {"frozen": True, "arbitrary_types_allowed": True, "str_to_lower": True, "str_strip_whitespace": True}
 
 
@@ -291,6 +455,7 @@ def allowed_option_names(cls):
 def class_info(cls, BaseSettings, seen):
     """-> dict describing one settings class (recursively registers nested classes into `seen`)"""
     name = cls.__name__
+    _NESTED[name] = cls
     if name in seen:
         return seen[name]
     info = {"name": name, "fields": [], "validators": [], "ancestors": []}
@@ -398,7 +563,7 @@ def extract():
                     _need(all(x["dev"] is None for x in sub["fields"]), "mixed developer flags in %s" % sub["name"])
     for n in LOCKED_FAMILIES:
         _need(seen[n]["validators"] and seen[n]["validators"][0]["vid"] == "VDevMode", "%s does not run the developer-mode check" % n)
-    return {"classes": seen, "top": list(TOP_CLASSES)}
+    return {"classes": seen, "top": list(TOP_CLASSES), "programs": compile_programs(classes, seen)}
 
 
 # ------------------------------------------------------------------ flat view / approved file
@@ -537,7 +702,7 @@ def coq_text(info, approved):
             if v["vid"] == "VWavelet":
                 wave = v
     out = ["(* GENERATED by harness/translate_settings.py from the pydantic classes of opendsm — do not edit. *)",
-           "From Coq Require Import ZArith QArith List Bool String.", "From V Require Import Model.Settings.",
+           "From Coq Require Import ZArith QArith List Bool String.", "From V Require Import Model.Settings Model.SettingsProg.",
            "Import ListNotations.", "Open Scope string_scope.", ""]
     if wave:
         out += ["Definition wavelet_names : list string := [%s]." % "; ".join(coq_str(n) for n in wave["names"]),
@@ -557,6 +722,10 @@ def coq_text(info, approved):
         out += ["Definition children_%s : list stree := %s." % (n, coq_children(info, n)),
                 "Definition t_%s : stree :=\n  Node \"\" false %s false [%s] children_%s."
                 % (n, coq_str(n), "; ".join(coq_vid(v) for v in c["validators"]), n), ""]
+    out += ["(* the bodies of the daily-family model validators, compiled from their source (python ast) *)"]
+    for vid in PROG_VIDS:
+        out += ["Definition prog_%s : list vstmt :=\n  %s." % (vid, info["programs"][vid])]
+    out += [""]
     regs = []
     for n in order:
         regs.append("(%s, ([%s], node_%s \"\" false false))" % (coq_str(n), "; ".join(coq_str(a) for a in cl[n]["ancestors"]), n))
